@@ -135,6 +135,15 @@ def check_phase(res, spec, obs, ph, ta=25.0, want=("C01", "C02", "C04"), d=None,
         if "C04" in want and k == "Source" and (not act or rec["a"]["vo"] == 0):
             if any(x != 0.0 for x in (vout, iin, iout, P, L)):
                 res.v(("C04.dead-source", k), "%s: %r" % (name, (vout, iin, iout, P, L)))
+            # nothing is booked on a dead supply: its Subsystem row is all zero and no row that draws anything carries its Domain
+            sr = obs.get((ph, "Subsystem " + name))
+            if sr is not None and any(g(sr, c_) != 0.0 for c_ in ("Iout (A)", "Power (W)", "Loss (W)")):
+                res.v(("C04.dead-subsystem-row",), "phase %r Subsystem %s: Iout %r P %r L %r" % (ph, name, g(sr, "Iout (A)"), g(sr, "Power (W)"), g(sr, "Loss (W)")))
+            for n2 in d:
+                r2 = rows[n2]
+                if n2 != name and r2.get("Domain") == name and any(g(r2, c_) != 0.0 for c_ in ("Iin (A)", "Power (W)", "Loss (W)")):
+                    res.v(("C04.live-row-in-dead-domain", d[n2]["k"]), "phase %r %s draws %r A but is attributed to the dead source %s" % (ph, n2, g(r2, "Iin (A)"), name))
+                    break
         # ---- C02 energy book-keeping -------------------------------------------------------
         if "C02" in want:
             if k not in LOADS:
@@ -197,12 +206,12 @@ def check_phase(res, spec, obs, ph, ta=25.0, want=("C01", "C02", "C04"), d=None,
     return rows
 
 
-def solve_and_check(res, spec, want, ta=25.0, solve_kw=None):
+def solve_and_check(res, spec, want, ta=25.0, solve_kw=None, holes=None):
     """Build the real system, solve it (all phases) and run the row oracles for every phase.
     Returns (system, obs) or (system, None) when solve() raised RuntimeError / 'Unstable' (not judged here)."""
     from .common import quiet_call
-    from .sysmodel import build, observe
-    s = build(spec)
+    from .sysmodel import build, observe, build_holes
+    s = build(spec) if not holes else build_holes(spec, analyse=(holes == "analysed"))   # holes: the same structure through an edit history
     res.stats["transitions"] += len(spec["comps"]) + 1
     try:
         df, _ = quiet_call(s.solve, ta=ta, **(solve_kw or {}))
